@@ -1069,6 +1069,51 @@ func degenerateStructCases() []RCaseR {
 	return out
 }
 
+// ruleLadderCases: see the call site.
+func ruleLadderCases() []RCaseR {
+	var out []RCaseR
+	mk := func(occs ...Occ) RCaseR {
+		c := RCaseR{Kind: "line", Note: "size-ladder"}
+		for _, oc := range occs {
+			c.Occs = append(c.Occs, oc)
+			c.Tokens = append(c.Tokens, "-"+oc.Flag, oc.Value)
+		}
+		return c
+	}
+	for _, n := range []int{31, 32, 33, 64, 65, 255, 256, 257, 1024, 2040} {
+		var nums []string
+		for i := 0; i < n; i++ {
+			k := i
+			if k >= 5 {
+				k++ // never the complete set 0..2015 (that class is a recorded finding)
+			}
+			nums = append(nums, strconv.Itoa(k))
+		}
+		out = append(out, mk(Occ{Flag: "a", Value: "always,exit"}, Occ{Flag: "S", Value: strings.Join(nums, ",")}))
+		c := mk(Occ{Flag: "a", Value: "never,exit"})
+		for _, s := range nums {
+			c.Occs = append(c.Occs, Occ{Flag: "S", Value: s})
+			c.Tokens = append(c.Tokens, "-S", s)
+		}
+		out = append(out, c)
+	}
+	for _, n := range []int{255, 256, 257, 4095, 4096, 4097} {
+		s := "/" + strings.Repeat("d", n-1)
+		out = append(out, mk(Occ{Flag: "a", Value: "always,exit"}, Occ{Flag: "F", Value: "path=" + s, LHS: "path", Op: "=", RHS: s, Str: true}),
+			mk(Occ{Flag: "a", Value: "always,exit"}, Occ{Flag: "F", Value: "exe=" + s, LHS: "exe", Op: "=", RHS: s, Str: true}, Occ{Flag: "k", Value: "lk"}),
+			mk(Occ{Flag: "w", Value: s}, Occ{Flag: "p", Value: "wa"}))
+		if n <= 257 {
+			k := strings.Repeat("k", n)
+			out = append(out, mk(Occ{Flag: "a", Value: "always,exit"}, Occ{Flag: "k", Value: k}),
+				mk(Occ{Flag: "a", Value: "always,exit"}, Occ{Flag: "F", Value: "key=" + k, LHS: "key", Op: "=", RHS: k, Str: true}),
+				// several keys whose joined length (with the separators) is n
+				mk(Occ{Flag: "a", Value: "always,exit"}, Occ{Flag: "k", Value: strings.Repeat("a", 100)}, Occ{Flag: "k", Value: strings.Repeat("b", 100)}, Occ{Flag: "k", Value: strings.Repeat("c", n-202)}),
+				mk(Occ{Flag: "w", Value: "/tmp/x"}, Occ{Flag: "p", Value: "r"}, Occ{Flag: "k", Value: k}))
+		}
+	}
+	return out
+}
+
 // watchShapeCases: see the call site.
 func watchShapeCases() []RCaseR {
 	var out []RCaseR
@@ -1709,6 +1754,10 @@ func ruleFamily(ctx *Ctx) error {
 	// mixed, with the field that reaches or crosses the limit being a filter, a comparison or the key
 	for _, c := range fieldBoundaryCases() {
 		run(c, "field-boundary")
+	}
+	// sizes a generated rule does not reach by chance: long syscall lists, strings and keys at the length limits
+	for _, c := range ruleLadderCases() {
+		run(c, "size-ladder")
 	}
 	// watch-shaped syscall rules, systematically: every order of path|dir, perm and key written as -F
 	// filters, and the near misses of the shape (other list/action, a syscall, a fourth filter, another operator)
